@@ -143,6 +143,7 @@ class BaseModel:
             if v is ...:
                 v = fi.default_factory() if fi.default_factory else (None if fi.default is ... else fi.default)
             object.__setattr__(self, k, v)
+        object.__setattr__(self, "__sym_fields_set__", set(data))
         return self
 
     def _sym_validate(self, data, context):
@@ -185,6 +186,7 @@ class BaseModel:
             raise errors[0]
         for name, v in done.items():
             object.__setattr__(self, name, v)
+        object.__setattr__(self, "__sym_fields_set__", {k for k in cls.__sym_fields__ if data.get(k, ...) is not ...})
         for mv in cls.__sym_mvs__:
             if mv.mode == "after":
                 try:
@@ -209,6 +211,8 @@ class BaseModel:
         if k not in type(self).__sym_fields__ and not k.startswith("_"):
             raise ValueError(f'"{type(self).__name__}" object has no field "{k}"')
         object.__setattr__(self, k, v)
+        if k in type(self).__sym_fields__:
+            self.__dict__.setdefault("__sym_fields_set__", set()).add(k)
 
     def __delattr__(self, k):
         if type(self).model_config.get("frozen"):
@@ -229,15 +233,18 @@ class BaseModel:
     __hash__ = None
 
     def model_copy(self, *, deep=False, update=None):
+        # pydantic copies the whole instance __dict__ (fields and anything cached on the instance)
         new = type(self).__new__(type(self))
-        for k in type(self).__sym_fields__:
-            v = getattr(self, k)
-            if deep:
-                v = _deep_copy(v)
-            object.__setattr__(new, k, v)
+        for k, v in self.__dict__.items():
+            new.__dict__[k] = _deep_copy(v) if deep else v
         for k, v in (update or {}).items():
-            object.__setattr__(new, k, v)
+            new.__dict__[k] = v
+            new.__dict__.setdefault("__sym_fields_set__", set()).add(k)
         return new
+
+    @property
+    def model_fields_set(self):
+        return set(self.__dict__.get("__sym_fields_set__", type(self).__sym_fields__))
 
     copy = model_copy
 
@@ -249,9 +256,19 @@ class BaseModel:
 
     def model_dump(self, **kw):
         out = SymDict()
-        for k in type(self).__sym_fields__:
+        for k, fi in type(self).__sym_fields__.items():
             v = getattr(self, k)
             if kw.get("exclude_none") and v is None:
+                continue
+            if kw.get("exclude_unset") and k not in self.model_fields_set:
+                continue
+            if kw.get("exclude_defaults"):
+                dflt = fi.default_factory() if fi.default_factory is not None else fi.default
+                if dflt is not ... and _deep_eq(v, dflt):
+                    continue
+            if kw.get("include") is not None and k not in kw["include"]:
+                continue
+            if kw.get("exclude") is not None and k in kw["exclude"]:
                 continue
             out[k] = _dump(v)
         return out
@@ -283,6 +300,8 @@ def _dump(v):
 def _deep_copy(v):
     if isinstance(v, list):
         return [_deep_copy(x) for x in v]
+    if isinstance(v, set):
+        return set(v)
     if isinstance(v, BaseModel):
         return v.model_copy(deep=True)
     if isinstance(v, SymDict):
@@ -681,10 +700,41 @@ JSON = _mk_module("json", dumps=json_dumps, dump=json_dump, loads=json_loads, lo
                   JSONDecodeError=JSONDecodeError, decoder=_real_json.decoder)
 
 
+import csv as _real_csv  # noqa: E402
+
+_NEEDS_QUOTING = None
+
+
+def _needs_quoting(delim):
+    return z3.Concat(sc.ANYSTR, z3.Union(z3.Re(delim), z3.Re('"'), z3.Re("\r"), z3.Re("\n")), sc.ANYSTR)
+
+
 class _Reader:
-    def __init__(self, f, delimiter=",", **kw):
+    """Rows come back unchanged when the reader's dialect is the writer's.  A reader that does not unquote
+    (QUOTE_NONE) over a file written with quoting returns *unspecified* content for every cell that needed quoting."""
+
+    def __init__(self, f, delimiter=",", quoting=_real_csv.QUOTE_MINIMAL, **kw):
         USED.add("csv")
-        self.rows = [list(r[1]) for r in FS[f.name] if r[0] == "row"]
+        if kw.get("quotechar", '"') != '"' or kw.get("escapechar") or kw.get("dialect", "excel") != "excel":
+            raise Unsupported("csv dialect options beyond delimiter / quoting")
+        self.rows = []
+        for r in FS[f.name]:
+            if r[0] != "row":
+                continue
+            cells, wdelim, wquoting = list(r[1]), (r[2] if len(r) > 2 else delimiter), (r[3] if len(r) > 3 else _real_csv.QUOTE_MINIMAL)
+            if wdelim != delimiter:
+                raise Unsupported("csv file read with a delimiter other than the one it was written with")
+            if quoting == _real_csv.QUOTE_NONE and wquoting != _real_csv.QUOTE_NONE:
+                out = []
+                for c in cells:
+                    if isinstance(c, SymStr):
+                        if E().branch(z3.InRe(c.e, _needs_quoting(delimiter))):
+                            c = SymStr(E().fresh_str("csvcell"))
+                    elif any(ch in c for ch in (delimiter, '"', "\r", "\n")):
+                        raise Unsupported("concrete cell that needs quoting read without unquoting")
+                    out.append(c)
+                cells = out
+            self.rows.append(cells)
         self.i = 0
         self.line_num = 0
 
@@ -699,9 +749,13 @@ class _Reader:
 
 
 class _Writer:
-    def __init__(self, f, delimiter=",", **kw):
+    def __init__(self, f, delimiter=",", quoting=_real_csv.QUOTE_MINIMAL, **kw):
         USED.add("csv")
-        self.f = f
+        if kw.get("quotechar", '"') != '"' or kw.get("escapechar") or kw.get("dialect", "excel") != "excel":
+            raise Unsupported("csv dialect options beyond delimiter / quoting")
+        if quoting == _real_csv.QUOTE_NONE:
+            raise Unsupported("csv.writer with QUOTE_NONE (raises on cells that need quoting)")
+        self.f, self.delimiter, self.quoting = f, delimiter, quoting
 
     def writerow(self, row):
         out = []
@@ -714,14 +768,14 @@ class _Writer:
                 else:
                     raise Unsupported("csv cell of unexpected type %s" % type(c).__name__)
             out.append(c)
-        FS[self.f.name].append(("row", out))
+        FS[self.f.name].append(("row", out, self.delimiter, self.quoting))
 
     def writerows(self, rows):
         for r in rows:
             self.writerow(r)
 
 
-CSV = _mk_module("csv", reader=_Reader, writer=_Writer)
+CSV = _mk_module("csv", reader=_Reader, writer=_Writer, **{k: getattr(_real_csv, k) for k in dir(_real_csv) if k.startswith("QUOTE_")})
 
 
 # =========================================================================== data frames (C16)
